@@ -172,22 +172,33 @@ pub fn f3(d: u32, km: u32, kr: u8) -> u32 {
 }
 
 /// BETA <- Q(BETA): C ^= f1(D, Kr0, Km0); B ^= f2(C, Kr1, Km1); A ^= f3(B, Kr2, Km2); D ^= f1(A, Kr3, Km3)
-pub fn forward_quad(beta: &mut [u32; 4], km: &[u32; 4], kr: &[u8; 4]) {
+/// (round functions as parameters: the quad-round structure is invertible for any f1, f2, f3)
+pub fn forward_quad_with<F1: Fn(u32, u32, u8) -> u32, F2: Fn(u32, u32, u8) -> u32, F3: Fn(u32, u32, u8) -> u32>(
+    beta: &mut [u32; 4], km: &[u32; 4], kr: &[u8; 4], g1: F1, g2: F2, g3: F3,
+) {
     let (mut a, mut b, mut c, mut d) = (beta[0], beta[1], beta[2], beta[3]);
-    c ^= f1(d, km[0], kr[0]);
-    b ^= f2(c, km[1], kr[1]);
-    a ^= f3(b, km[2], kr[2]);
-    d ^= f1(a, km[3], kr[3]);
+    c ^= g1(d, km[0], kr[0]);
+    b ^= g2(c, km[1], kr[1]);
+    a ^= g3(b, km[2], kr[2]);
+    d ^= g1(a, km[3], kr[3]);
     *beta = [a, b, c, d];
 }
 /// BETA <- QBAR(BETA): D ^= f1(A, Kr3, Km3); A ^= f3(B, Kr2, Km2); B ^= f2(C, Kr1, Km1); C ^= f1(D, Kr0, Km0)
-pub fn reverse_quad(beta: &mut [u32; 4], km: &[u32; 4], kr: &[u8; 4]) {
+pub fn reverse_quad_with<F1: Fn(u32, u32, u8) -> u32, F2: Fn(u32, u32, u8) -> u32, F3: Fn(u32, u32, u8) -> u32>(
+    beta: &mut [u32; 4], km: &[u32; 4], kr: &[u8; 4], g1: F1, g2: F2, g3: F3,
+) {
     let (mut a, mut b, mut c, mut d) = (beta[0], beta[1], beta[2], beta[3]);
-    d ^= f1(a, km[3], kr[3]);
-    a ^= f3(b, km[2], kr[2]);
-    b ^= f2(c, km[1], kr[1]);
-    c ^= f1(d, km[0], kr[0]);
+    d ^= g1(a, km[3], kr[3]);
+    a ^= g3(b, km[2], kr[2]);
+    b ^= g2(c, km[1], kr[1]);
+    c ^= g1(d, km[0], kr[0]);
     *beta = [a, b, c, d];
+}
+pub fn forward_quad(beta: &mut [u32; 4], km: &[u32; 4], kr: &[u8; 4]) {
+    forward_quad_with(beta, km, kr, f1, f2, f3)
+}
+pub fn reverse_quad(beta: &mut [u32; 4], km: &[u32; 4], kr: &[u8; 4]) {
+    reverse_quad_with(beta, km, kr, f1, f2, f3)
 }
 /// KAPPA <- W(KAPPA) with the octave's eight masking / rotation constants (tm, tr of length 8).
 pub fn forward_octave(kappa: &mut [u32; 8], tm: &[u32], tr: &[u8]) {
@@ -227,7 +238,9 @@ pub fn tm_tr() -> ([[u32; 8]; 24], [[u8; 8]; 24]) {
 /// Key schedule (RFC 2612, 2.4) of a 256-bit (padded) key -> (Km^(i), Kr^(i)), i = 0..11.
 /// `w` is the forward octave.
 pub fn key_schedule_with<W: Fn(&mut [u32; 8], &[u32], &[u8])>(key: &[u8; 32], w: W) -> ([[u32; 4]; 12], [[u8; 4]; 12]) {
-    let (tm, tr) = tm_tr();
+    // Tm / Tr are produced on the fly by the RFC's initialisation recurrence, one octave (8 values) at a time
+    let mut cm = CM;
+    let mut cr = CR;
     let mut kappa = [0u32; 8];
     let mut i = 0;
     while i < 8 {
@@ -238,8 +251,22 @@ pub fn key_schedule_with<W: Fn(&mut [u32; 8], &[u32], &[u8])>(key: &[u8; 32], w:
     let mut kr = [[0u8; 4]; 12];
     i = 0;
     while i < 12 {
-        w(&mut kappa, &tm[2 * i], &tr[2 * i]);
-        w(&mut kappa, &tm[2 * i + 1], &tr[2 * i + 1]);
+        let mut half = 0;
+        while half < 2 {
+            // KAPPA <- W_{2i + half}(KAPPA)
+            let mut tm = [0u32; 8];
+            let mut tr = [0u8; 8];
+            let mut j = 0;
+            while j < 8 {
+                tm[j] = cm;
+                cm = cm.wrapping_add(MM);
+                tr[j] = cr as u8;
+                cr = (cr + MR) % 32;
+                j += 1;
+            }
+            w(&mut kappa, &tm, &tr);
+            half += 1;
+        }
         // Kr0 = 5LSB(A), Kr1 = 5LSB(C), Kr2 = 5LSB(E), Kr3 = 5LSB(G); Km0 = H, Km1 = F, Km2 = D, Km3 = B
         kr[i] = [(kappa[0] % 32) as u8, (kappa[2] % 32) as u8, (kappa[4] % 32) as u8, (kappa[6] % 32) as u8];
         km[i] = [kappa[7], kappa[5], kappa[3], kappa[1]];
